@@ -470,3 +470,24 @@ def unalias(e: ast.expr, al: Dict[str, ast.expr]) -> ast.expr:
     if not al:
         return e
     return _Unalias(al).visit(_c.deepcopy(e))
+
+
+def expand_locals(fi, e, depth: int = 3):
+    """the expression with every local name that has exactly one definition replaced by that definition (a few levels)"""
+    import copy
+
+    defs = {}
+    for a in ast.walk(fi.node):
+        if isinstance(a, ast.Assign) and len(a.targets) == 1 and isinstance(a.targets[0], ast.Name):
+            defs.setdefault(a.targets[0].id, []).append(a.value)
+
+    class T(ast.NodeTransformer):
+        def visit_Name(self, n):
+            if isinstance(n.ctx, ast.Load) and len(defs.get(n.id, [])) == 1 and n.id not in fi.params:
+                return copy.deepcopy(defs[n.id][0])
+            return n
+
+    out = copy.deepcopy(e)
+    for _ in range(depth):
+        out = T().visit(out)
+    return out
